@@ -8,6 +8,7 @@ import Driver.File
 import Driver.Config
 import Driver.Chain
 import Driver.Plug
+import Driver.Sys
 import Std.Data.HashMap
 open Drv
 
@@ -133,4 +134,5 @@ def main (args : List String) : IO UInt32 := do
   | ["config"] => run ⟨(), fun _ op res => ((), Config.step op res)⟩; return 0
   | ["chain"] => run ⟨(), fun _ op res => ((), Chain.step op res)⟩; return 0
   | ["plug"] => run ⟨({} : Plug.St), Plug.step⟩; return 0
+  | ["sys"] => run ⟨({} : SysE.St), SysE.step⟩; return 0
   | _ => IO.eprintln "usage: drv <engine> < trace"; return 2
